@@ -3,7 +3,7 @@
 Reference models: digit-table roman numerals; explicit (value, index) keys for the stable sorting permutation;
 window comparison at every offset; collections.Counter; plain slicing for the batchers.
 """
-import collections, itertools, math, random
+import collections, itertools, random
 from _util import take, ok, Fail, check, call
 
 from windpyutils.generic import (int_2_roman, roman_2_int, arg_sort, sub_seq, search_sub_seq, compare_pos_in_iterables,
